@@ -7,6 +7,10 @@ from .. import core, family
 SPEC = os.path.join(core.VERIF, "specs", "Import")
 DRIVER = os.path.join(core.VERIF, "harness", "overlay", "chainimport", "zz_verif_import_test.go")
 PKG = os.path.join(core.REPO, "chainimport")
+# overlay-only helper compiled into package headerfs (nothing is added to /repo): lets the driver wrap the
+# stores' flat files so that a crash can fall INSIDE a store call of the importer
+HOOK = os.path.join(core.VERIF, "harness", "overlay", "chainimport", "zz_verif_import_headerfs_hook.go")
+HOOK_AT = os.path.join(core.REPO, "headerfs", "zz_verif_import_hook.go")
 
 READY = False
 PROPERTIES = ["C14"]
@@ -47,7 +51,7 @@ PROPS = {
 CODE_VERSION = json.load(open(os.path.join(SPEC, "code_version.json")))
 
 CONFIGS = {
-    ("C14", "quick"): dict(MaxStart=2, MaxLen=3, MaxBatch=3, MaxStoreH=2, MaxH=4, MaxAnom=1, MaxFaults=2,
+    ("C14", "quick"): dict(MaxStart=2, MaxLen=4, MaxBatch=3, MaxStoreH=3, MaxH=5, MaxAnom=1, MaxFaults=2,
                            WithCrash=True),
     ("C14", "thorough"): dict(MaxStart=3, MaxLen=5, MaxBatch=4, MaxStoreH=4, MaxH=7, MaxAnom=2, MaxFaults=2,
                               WithCrash=True),
@@ -89,7 +93,7 @@ def label(act):
         s += "(%d)" % act.get("n", 0)
     inj = act.get("inj", "none")
     if inj not in ("none", "", None):
-        s += "[%s]" % inj
+        s += "[%s%s]" % (inj, act.get("sn") if inj == "cw" else "")
     return s + "=" + str(act.get("res"))
 
 
@@ -112,7 +116,8 @@ def run(prop_id, tier, seed, replay=None):
             g = core.Graph.load(tlc)
             paths, unreach = core.edge_cover(g, rng)
             core.write_paths(g, paths, pf)
-        binary = family.build_overlay_test(PKG, [DRIVER], os.path.join(sc, "chainimport.test"))
+        binary = family.build_overlay_test(PKG, [DRIVER], os.path.join(sc, "chainimport.test"),
+                                           extra_overlay={HOOK_AT: HOOK})
         observed, log = family.run_driver(binary, "TestVerifImportReplay", pf,
                                           os.path.join(sc, "obs.ndjson"), sc,
                                           env_extra={"VERIF_SEED": str(seed)})
